@@ -73,6 +73,8 @@ pub fn openssl_ca(d: &Value, key: &KeyInfo) -> Result<Vec<u8>, String> {
 			let kind = sval(ent, "kind");
 			// transfer-encode for the two wide types
 			let enc: Vec<u8> = match kind.as_str() {
+				// a literal of the case is the content octets themselves (they need not be text in any encoding)
+				_ if ent["lit"].as_bool().unwrap_or(false) => crate::der::unhex(&sval(ent, "val")),
 				"bmp" => text.chars().flat_map(|c| [0u8, c as u8]).collect(),
 				"universal" => text.chars().flat_map(|c| [0u8, 0, 0, c as u8]).collect(),
 				_ => text.clone().into_bytes(),
